@@ -18,6 +18,7 @@ from basilisp.lang.interfaces import (
     ITransientMap,
     IWithMeta,
     ReduceKVFunction,
+    _elem_equals,
 )
 from basilisp.lang.obj import (
     MAP_PRINT_SEPARATOR,
@@ -257,7 +258,14 @@ class PersistentMap(
             return NotImplemented
         if len(self._inner) != len(other):
             return False
-        return self._inner == other
+        # Values are compared as collection elements are everywhere else (a boolean
+        # is never equal to a number), which Python's mapping equality does not do
+        sentinel = object()
+        for k, v in self._inner.items():
+            other_v = other.get(k, sentinel)
+            if other_v is sentinel or not _elem_equals(v, other_v):
+                return False
+        return True
 
     def __getitem__(self, item):
         return self._inner[item]
